@@ -259,6 +259,9 @@ func (c *fctx) calleeOracles(x *ast.CallExpr, callee *fnInfo) []string {
 }
 
 func (c *fctx) rangeStmt(depth int, s *ast.RangeStmt, rest func(int) string) string {
+	if out, ok := c.csRange(depth, s, rest); ok {
+		return out // a [][]byte / array leaf of the receiver (ext4.go)
+	}
 	kt, vt, isMap := mapKV(c.info.TypeOf(s.X))
 	if !isMap && isByteSlice(c.info.TypeOf(s.X)) {
 		return c.rangeBytes(depth, s, rest)
